@@ -428,6 +428,9 @@ class Replayer:
 
     def construct(self, st):
         """A world in the specification state `st` (built tables, tolerance, loss/algo configuration)."""
+        # every world is BUILT under the default tolerance (objects capture tolerance-derived defaults when constructed);
+        # the tolerance of the state is installed afterwards
+        set_atol(False)
         w = World(self.family)
         for t in st["built"]:
             w.build(t)
